@@ -6,6 +6,8 @@
      "totals ok" | "totals DIFF ids"                 model of propagate_total_memory on the phase-5 tree vs the final dump
      "inserts ok n=<calls>" | "inserts DIFF call=<k> ..."  model of hwloc___insert_object_by_cpuset (Topo/Insert.v) on the tree right
                                                      before each insertion vs the tree right after it (printed once per load, before "wf")
+     "meminserts ok n=<calls>" | "meminserts DIFF call=<k> ..."  model of hwloc__find_insert_memory_parent and hwloc___attach_memory_object_by_nodeset
+                                                     (Topo/MemAttach.v) on the trees right before/after each call
      "merge ok" | "merge DIFF"                       model of load-time KEEP_STRUCTURE level merging on the phase-4 tree vs the phase-5 tree
      "removal ok" | "removal DIFF"                   model of hwloc_filter_bridges + remove_empty on the phase-3 tree vs the phase-4 tree
    other lines are echoed *)
@@ -16,7 +18,9 @@ let phase_of head =
   match Stdlib.Hashtbl.find_opt h "phase" with Some p -> int_of_string p | None -> 0
 let p1 = ref None and p5 = ref None and p3 = ref None and p10 = ref None
 let p4 : (dump * n list) option ref = ref None
+let p12 = ref None and p14 = ref None
 let ins_calls = ref 0 and ins_bad = ref []
+let mem_calls = ref 0 and mem_bad = ref []
 let contains s sub = let n = Stdlib.String.length s and m = Stdlib.String.length sub in let rec go i = i + m <= n && (Stdlib.String.sub s i m = sub || go (i + 1)) in go 0
 let () =
   read_blocks stdin
@@ -53,6 +57,27 @@ let () =
                     if not (insert_tie b.pd p.pd (n_of_int ins) (n_of_int root) !dms dm_new (Stdlib.Hashtbl.find h2 "same" = "1") (res = "-"))
                     then ins_bad := (!ins_calls, b.raw_objs.(ins)) :: !ins_bad
                 | None -> ()); p10 := None
+       | 12 -> p12 := Some p
+       | 13 -> (match !p12 with
+                | Some b ->
+                    let h = kv_tbl (split_on ' ' b.raw_head) and h2 = kv_tbl (split_on ' ' p.raw_head) in
+                    let ins = int_of_string (Stdlib.Hashtbl.find h "ins") in
+                    let par = Stdlib.Hashtbl.find h2 "insroot" in
+                    let dms = ref [] in
+                    Stdlib.Array.iteri (fun i l -> if contains l "gdontmerge:1" then (match (Stdlib.List.nth b.pd.t_objs i).o_gp with Some g -> dms := g :: !dms | None -> ())) b.raw_objs;
+                    incr mem_calls;
+                    if par = "-" || par = "?" || not (find_parent_tie b.pd p.pd (n_of_int ins) (n_of_int (int_of_string par)) !dms)
+                    then mem_bad := (!mem_calls, "find_insert_memory_parent " ^ b.raw_objs.(ins)) :: !mem_bad
+                | None -> ()); p12 := None
+       | 14 -> p14 := Some p
+       | 15 -> (match !p14 with
+                | Some b ->
+                    let h = kv_tbl (split_on ' ' b.raw_head) and h2 = kv_tbl (split_on ' ' p.raw_head) in
+                    let ins = int_of_string (Stdlib.Hashtbl.find h "ins") and par = int_of_string (Stdlib.Hashtbl.find h "insroot") in
+                    incr mem_calls;
+                    if not (attach_tie b.pd p.pd (n_of_int ins) (n_of_int par) (Stdlib.Hashtbl.find h2 "same" = "1"))
+                    then mem_bad := (!mem_calls, "attach_memory_object " ^ b.raw_objs.(ins)) :: !mem_bad
+                | None -> ()); p14 := None
        | 5 -> (match !p4 with
                | Some (d4, dm) -> print_endline (if merge_agrees d4 p.pd dm then "merge ok" else "merge DIFF")
                | None -> ()); p4 := None;
@@ -63,6 +88,11 @@ let () =
             | l -> let (k, raw) = Stdlib.List.hd (Stdlib.List.rev l) in
                    print_endline ("inserts DIFF call=" ^ string_of_int k ^ " of " ^ string_of_int !ins_calls ^ " bad=" ^ string_of_int (Stdlib.List.length l) ^ " obj: " ^ raw)));
          ins_calls := 0; ins_bad := [];
+         (if !mem_calls > 0 then (match !mem_bad with
+            | [] -> print_endline ("meminserts ok n=" ^ string_of_int !mem_calls)
+            | l -> let (k, raw) = Stdlib.List.hd (Stdlib.List.rev l) in
+                   print_endline ("meminserts DIFF call=" ^ string_of_int k ^ " of " ^ string_of_int !mem_calls ^ " bad=" ^ string_of_int (Stdlib.List.length l) ^ " " ^ raw)));
+         mem_calls := 0; mem_bad := [];
          (match wf_check p.pd with
           | [] -> print_endline "wf ok"
           | vs -> print_endline ("wf VIOLATION " ^ Stdlib.String.concat " " (Stdlib.List.map (fun (c, i) -> ocaml_of_coq_string c ^ "@" ^ string_of_int (int_of_n i)) vs)));
@@ -75,4 +105,4 @@ let () =
                         | None -> print_endline "totals DIFF tree")
           | None -> ()); p5 := None
        | _ -> ())
-    (fun l -> if l = "new rc=0" then (p1 := None; p5 := None; p3 := None; p4 := None; p10 := None; ins_calls := 0; ins_bad := []); print_endline l)
+    (fun l -> if l = "new rc=0" then (p1 := None; p5 := None; p3 := None; p4 := None; p10 := None; p12 := None; p14 := None; ins_calls := 0; ins_bad := []; mem_calls := 0; mem_bad := []); print_endline l)
